@@ -516,7 +516,9 @@ fn run_batch(exe: &Path, dir: &Path, name: &str, cases: &[Case]) -> Vec<Answer> 
 }
 
 pub const ALLOC_FACTOR: usize = 64;
-pub const ALLOC_SLACK: usize = 8 << 20;
+/// constant part: the brotli decoder allocates its window (up to 16 MiB, announced by the stream header)
+/// before decoding; regex tables of the CSV value parser take ~6 MiB
+pub const ALLOC_SLACK: usize = 24 << 20;
 
 fn record(out: &mut Out, c: &Case, a: &Answer) {
 	let line = c.line();
@@ -547,7 +549,7 @@ fn record(out: &mut Out, c: &Case, a: &Answer) {
 		if a.max_single > limit {
 			out.oracle(
 				false,
-				&format!("C19 alloc: {} allocates {} bytes in one request for {} input bytes (limit {}·n + 8 MiB)", c.ep, a.max_single, c.input.len(), ALLOC_FACTOR),
+				&format!("C19 alloc: {} allocates {} bytes in one request for {} input bytes (limit {}·n + 24 MiB)", c.ep, a.max_single, c.input.len(), ALLOC_FACTOR),
 				json!({"ep": c.ep, "kind": "alloc"}),
 				json!({"case": short(c), "max_single": a.max_single, "peak": a.peak, "input_bytes": c.input.len(), "class": c.class}),
 			);
@@ -576,7 +578,7 @@ pub fn run(args: &Args) {
 (bit flips, byte replacement, truncation, deletion, duplication, splices of two valid encodings, length fields set to 2^31/2^32/2^63/2^64-1 and neighbours, multi-byte UTF-8 placed at every \
 alignment relative to error sites, JSON/VPL nesting to 512 quick / 5000 thorough, self-referential PMTiles leaf directories, semantic corruption of SQLite rows, odd tar member names); \
 each case runs in a child process (RLIMIT_AS 4 GiB, 10 s watchdog) under catch_unwind with a counting global allocator. Oracle: verdict is ok or err (never panic, abort, SIGSEGV, timeout) and the \
-largest single allocation request is <= {}*|input| + 8 MiB. Entry points with a Lean model (json, csv, mvt, pbfstr, pmdir, pmfind, pmhdr, vtblk, vtbidx, vttidx, vthdr, vpl; input <= 4 KiB) are also compared with the model's verdict. \
+largest single allocation request is <= {}*|input| + 24 MiB. Entry points with a Lean model (json, csv, mvt, pbfstr, pmdir, pmfind, pmhdr, vtblk, vtbidx, vttidx, vthdr, vpl; input <= 4 KiB) are also compared with the model's verdict. \
 non-trivial = derived from a valid encoding or structured generator (everything except class 'random'); distinct by case text",
 		ALL_EPS.join(", "),
 		ALLOC_FACTOR
